@@ -3,7 +3,7 @@
 use crate::aio::{self, Mode, Script};
 use crate::drive::*;
 use crate::spaces::{self, SpaceCfg};
-use crate::with_in;
+use vdrive::with_in;
 use bytes::Bytes;
 use pilota::thrift::{
     binary, binary_le, compact, ProtocolExceptionKind, TAsyncInputProtocol, TInputProtocol, ThriftException,
